@@ -25,5 +25,5 @@ def run(report, tier):
                       "absent; Particle without width gives the reference width in GeV; JetSet integers stay int",
                 bounds=f"{len(H.KINDS)} statement kinds x 0..4 statements x {len(H.PATTERNS)} name-repetition patterns x 4 placements "
                        f"relative to two Decay blocks x 4 value rotations over {len(H.VALUES)} literal forms",
-                functions=FUNCS, timeout=900 if thorough else 480, sample={"kind": "jetset", "text": "JetSetPar MSTJ(26)=3"})
+                functions=FUNCS, timeout=900 if thorough else 480, concrete_body=True, sample={"kind": "jetset", "text": "JetSetPar MSTJ(26)=3"})
     chrun.run_harness(report, h)
